@@ -82,5 +82,5 @@ DumpConstraint ==
   IF DumpFile # "" /\ pc = "done" THEN CSVWrite("%1$s", <<ToJson(Rec)>>, DumpFile) ELSE TRUE
 
 \* the interface table, written once
-ASSUME DumpFile = "" \/ CSVWrite("%1$s", <<ToJson([qf |-> QF])>>, DumpFile)
+ASSUME DumpFile = "" \/ CSVWrite("%1$s", <<ToJson([qf |-> QF, defaults |-> [k \in Kinds |-> DefaultRec(k)]])>>, DumpFile)
 =============================================================================
